@@ -131,8 +131,10 @@ class FieldSpec:
     shape: str
     dkind: str               # no|val|fac
     dsrc: str | None
-    alias: str | None
+    alias: str | None        # the alias in effect (what __get_field_alias answers)
     omit: bool
+    asrc: str = "meta"       # where the alias is written: "meta" = field metadata, "config" = the class-level table Config.aliases
+    cshadow: str | None = None   # a Config.aliases entry for a field whose metadata names another alias (metadata wins)
 
     @property
     def sh(self) -> Shape:
@@ -212,7 +214,7 @@ def field_line(f: FieldSpec, plain: bool) -> str:
     elif f.dkind == "fac":
         args.append(f"default_factory={f.dsrc}")
     md = {}
-    if f.alias is not None:
+    if f.alias is not None and f.asrc == "meta":
         md["alias"] = f.alias
     if f.omit and not plain:
         md["serialize"] = "omit"
@@ -236,8 +238,22 @@ def flags_src(fon, fba, fdl, fcx) -> str:
     return "[" + ", ".join(fl) + "]"
 
 
-def config_lines(o: Opts, cfgd_name: str | None) -> list[str]:
+def config_aliases(fields) -> dict:
+    """the class-level alias table Config.aliases the field list asks for"""
+    out = {}
+    for f in fields:
+        if isinstance(f, FieldSpec):
+            if f.alias is not None and f.asrc == "config":
+                out[f.name] = f.alias
+            elif f.alias is not None and f.cshadow is not None:
+                out[f.name] = f.cshadow
+    return out
+
+
+def config_lines(o: Opts, cfgd_name: str | None, aliases: dict | None = None) -> list[str]:
     cfg = []
+    if aliases:
+        cfg.append(f"        aliases = {aliases!r}")
     for i in range(3):
         if o.cfg[i] != "U":
             cfg.append(f"        {OPTN[i]} = {_TV[o.cfg[i]]}")
@@ -260,7 +276,7 @@ def class_source(name: str, fields: list, o: Opts | None, extra_lines: list[str]
     lines = [field_line(f, o is None) if isinstance(f, FieldSpec) else f for f in fields] + (extra_lines or [])
     src += ("\n".join(lines) if lines else "    pass") + "\n"
     if o is not None:
-        cfg = config_lines(o, cfgd_name if o.cfgd is not None else None)
+        cfg = config_lines(o, cfgd_name if o.cfgd is not None else None, config_aliases(fields))
         if cfg and o.cfg_style == 0:
             src += "    class Config(BaseConfig):\n" + "\n".join(cfg) + "\n"
         elif cfg and o.cfg_style == 1:
@@ -445,7 +461,10 @@ TOML_SHAPES = ("int", "float", "str", "bool", "optint", "any", "int_none", "list
                "fin_ann_optint", "ann_any", "wide_union")       # values identical in to_dict and after a TOML round trip
 
 
-def gen_fields(rng, nmax=6, collide=0.08, shapes=None) -> list[FieldSpec]:
+def gen_fields(rng, nmax=6, collide=0.08, shapes=None, cfg_alias=0.0) -> list[FieldSpec]:
+    """cfg_alias: probability that the class writes its aliases into Config.aliases (per class; then per field: the table,
+    the field metadata, or both with contradicting names)"""
+    table = rng.random() < cfg_alias if cfg_alias else False
     n = rng.randint(1, nmax)
     names = rng.sample(NAMES, n)
     aliases = rng.sample(ALIASES, len(ALIASES))
@@ -458,7 +477,15 @@ def gen_fields(rng, nmax=6, collide=0.08, shapes=None) -> list[FieldSpec]:
             al = aliases[i % len(aliases)]
             if rng.random() < collide:       # an alias equal to another field's name / alias: keys merge
                 al = rng.choice(names + [aliases[0]])
-        fields.append(FieldSpec(nm, sh.key, dk, ds, al, rng.random() < 0.12))
+        omit = rng.random() < 0.12
+        asrc, shadow = "meta", None
+        if table and al is not None:
+            r = rng.random()
+            if r < 0.6:
+                asrc = "config"
+            elif r < 0.8:
+                shadow = aliases[(i + 3) % len(aliases)]
+        fields.append(FieldSpec(nm, sh.key, dk, ds, al, omit, asrc, shadow))
     return fields
 
 
@@ -1591,7 +1618,7 @@ def run_flat(ctx: vlib.Ctx, cases: list[str], case_info: list, ecases: dict | No
     for ci in range(n_classes):
         r = rng.random()
         entry = "codec" if r < 0.2 else ("toml" if r < 0.32 else "to_dict")
-        fields = gen_fields(rng, shapes=TOML_SHAPES if entry == "toml" else None)
+        fields = gen_fields(rng, shapes=TOML_SHAPES if entry == "toml" else None, cfg_alias=0.45)
         o0 = gen_opts(rng, "to_dict" if entry == "toml" else entry)
         if entry == "toml":
             o0 = replace(o0, entry="toml", dd=("T", "U", "U"), lazy=False)
@@ -1803,6 +1830,7 @@ def run(ctx: vlib.Ctx):
     ctx.theorems("props/C08_kernel_K17.vo", ["K17_nullable", "K17_nullable_declared_partial", "K17_bound_refuted"], kernels=["K17"])
     ctx.theorems("props/C08_kernel_K18.vo", ["K18_bookkeeping", "K18_use_kwargs"], kernels=["K18", "K8"])
     ctx.theorems("props/C08_kernel_K108a.vo", ["K108a_set_value", "K108a_emit_kw", "K108a_field"], kernels=["K108a"])
+    ctx.theorems("props/C08_kernel_K108b.vo", ["K108b_key", "K108b_order", "K108b_body"], kernels=["K108b"])
     ctx.theorems("props/C08_project.vo", thm)
     ctx.theorems("props/C08_fix.vo", ["C08_project_fixed_full"])
     ctx.theorems("props/C08_nested.vo", ["C08_nested_partial", "C08_union_flags_refuted", "C08_subclass_flags_refuted", "C08_forwarded_exactly", "C08_no_leak",
@@ -1814,9 +1842,9 @@ def run(ctx: vlib.Ctx):
         with vlib.Lock("build"):
             rc, out, _ = vlib.run(["timeout", "600", "coqchk", "-silent", "-o", "-Q", "theories", "Verif", "-Q", "gen", "VerifGen",
                                    "-Q", "props", "VerifProps", "VerifProps.C08_project", "VerifProps.C08_nested",
-                                   "VerifProps.C08_kernel_K3", "VerifProps.C08_kernel_K8", "VerifProps.C08_kernel_K14", "VerifProps.C08_kernel_K17", "VerifProps.C08_kernel_K18", "VerifProps.C08_kernel_K13F", "VerifProps.C08_kernel_K108a", "VerifProps.C08_fix"], cwd=vlib.COQ, timeout=640)
+                                   "VerifProps.C08_kernel_K3", "VerifProps.C08_kernel_K8", "VerifProps.C08_kernel_K14", "VerifProps.C08_kernel_K17", "VerifProps.C08_kernel_K18", "VerifProps.C08_kernel_K13F", "VerifProps.C08_kernel_K108a", "VerifProps.C08_kernel_K108b", "VerifProps.C08_fix"], cwd=vlib.COQ, timeout=640)
         ok = rc == 0 and "Axioms: <none>" in out
-        ctx.obligation("coqchk -o (C08_project, C08_nested, C08_fix, C08_kernel_K3/K8/K13F/K14/K17/K18/K108a): no axioms", ok, out[-600:])
+        ctx.obligation("coqchk -o (C08_project, C08_nested, C08_fix, C08_kernel_K3/K8/K13F/K14/K17/K18/K108a/K108b): no axioms", ok, out[-600:])
         if not ok:
             ctx.not_shown("coqchk", out[-1500:])
 
